@@ -6,7 +6,7 @@ OBLIGATIONS = [
   Ob('C07.int2oct', H, 'h_int2oct', tier='quick', unwind=3, bound='q symbolic 2..30, every integer vector with |x|+|y|+|z| = center',
      covers='OctahedronToolBox::IntegerVectorToQuantizedOctahedralCoords, CanonicalizeOctahedralCoords'),
 ]
-for q, tier in ((2, 'quick'), (3, 'quick'), (8, 'thorough'), (16, 'thorough')):
+for q, tier in ((2, 'quick'), (3, 'quick'), (8, 'thorough'), (16, 'extended')):
     OBLIGATIONS.append(Ob('C07.canon_intvec_q%d' % q, H, 'h_canon_intvec', tier=tier, unwind=3, defines={'QC': q}, backend='kissat',
         bound='q=%d, every int32 vector (INT32_MIN excluded)' % q, covers='OctahedronToolBox::CanonicalizeIntegerVector<int32_t> (64-bit multiply/divide)'))
 for q, tier in ((2, 'quick'), (8, 'quick'), (11, 'thorough'), (16, 'thorough'), (24, 'thorough'), (30, 'thorough')):
